@@ -12,9 +12,9 @@ import (
 	"strings"
 	"time"
 
+	mintertypes "github.com/chain4energy/c4e-chain/x/cfeminter/types"
 	vestkeeper "github.com/chain4energy/c4e-chain/x/cfevesting/keeper"
 	vesttypes "github.com/chain4energy/c4e-chain/x/cfevesting/types"
-	mintertypes "github.com/chain4energy/c4e-chain/x/cfeminter/types"
 	sdk "github.com/cosmos/cosmos-sdk/types"
 	authtypes "github.com/cosmos/cosmos-sdk/x/auth/types"
 	vestingtypes "github.com/cosmos/cosmos-sdk/x/auth/vesting/types"
@@ -36,10 +36,10 @@ type vestEnv struct {
 	vtNm   map[string]int64
 	ms     vesttypes.MsgServer
 	// independent lineage oracle for C17
-	derived map[int]bool
+	derived     map[int]bool
 	genesisAcct map[int]bool
-	step   int
-	blockedId int
+	step        int
+	blockedId   int
 }
 
 func (e *vestEnv) addrStr(id int) string {
@@ -315,12 +315,14 @@ type vestOp struct {
 	kind string
 	run  func(c sdk.Context) (*big.Int, error)
 	// for predicates
-	owner, to int
-	name      int64
-	amount    *big.Int
-	restart   bool
-	coins     sdk.Coins
-	newTime   time.Time
+	owner, to  int
+	name       int64
+	amount     *big.Int
+	restart    bool
+	coins      sdk.Coins
+	newTime    time.Time
+	start, end int64 // create_va: the given schedule
+	denoms     []int // move_denoms: the selected denominations (as listed in the message)
 }
 
 func runVestCase(ta *TestApp, seed uint64, idx int, rep *Report, profile string) string {
@@ -416,7 +418,7 @@ func runVestCase(ta *TestApp, seed uint64, idx int, rep *Report, profile string)
 		otherIds = append(otherIds, id)
 		bacc := app.AccountKeeper.NewAccountWithAddress(ctx, e.addrs[id]).(*authtypes.BaseAccount)
 		if rng.Chance(70) {
-			bacc.SetPubKey(valKey.PubKey()) //nolint:errcheck
+			bacc.SetPubKey(valKey.PubKey())            //nolint:errcheck
 			bacc.SetSequence(uint64(1 + rng.Intn(50))) //nolint:errcheck
 		}
 		var acc authtypes.AccountI
@@ -747,7 +749,7 @@ func runVestCase(ta *TestApp, seed uint64, idx int, rep *Report, profile string)
 			if rng.Chance(5) {
 				en = st
 			}
-			op = vestOp{kind: "create_va", owner: from, to: to, coins: coins,
+			op = vestOp{kind: "create_va", owner: from, to: to, coins: coins, start: st, end: en,
 				term: fmt.Sprintf("OCreateVA %s %s %s %s %s", zI(int64(from)), zI(int64(to)), coinsTerm(coins), zI(st), zI(en)),
 				run: func(c sdk.Context) (*big.Int, error) {
 					_, err := e.ms.CreateVestingAccount(sdk.WrapSDKContext(c), &vesttypes.MsgCreateVestingAccount{FromAddress: e.addrStr(from),
@@ -852,7 +854,7 @@ func runVestCase(ta *TestApp, seed uint64, idx int, rep *Report, profile string)
 				dss = append(dss, zI(int64(d)))
 				dnames = append(dnames, denomNames[d])
 			}
-			op = vestOp{kind: "move_denoms", owner: from, to: to,
+			op = vestOp{kind: "move_denoms", owner: from, to: to, denoms: ds,
 				term: fmt.Sprintf("OMoveDenoms %s %s %s", zI(int64(from)), zI(int64(to)), zList(dss)),
 				run: func(c sdk.Context) (*big.Int, error) {
 					_, err := e.ms.MoveAvailableVestingByDenoms(sdk.WrapSDKContext(c), &vesttypes.MsgMoveAvailableVestingByDenoms{FromAddress: e.addrStr(from), ToAddress: e.addrStr(to), Denoms: dnames})
@@ -1069,6 +1071,26 @@ func (e *vestEnv) predicates(ctx sdk.Context, op *vestOp, pre *vestSnap, res opR
 	if res.ok && op.kind == "send" {
 		rep.Eval("C08.request_within_locked_succeeds", true, c, st, "")
 	}
+	if op.kind == "move_denoms" && res.panic_ == "" && op.owner >= 0 && op.to > 0 && op.to != op.owner && op.to != e.blockedId {
+		// C07: whatever is locked (and undelegated) in the selected denominations can be moved to an absent, unblocked recipient
+		_, existed := pre.accBytes[op.to]
+		a0, _ := app.AccountKeeper.UnmarshalAccount(pre.accBytes[op.owner])
+		_, isCva := a0.(*vestingtypes.ContinuousVestingAccount)
+		dup := map[int]bool{}
+		hasDup, anyLocked := false, false
+		for _, d := range op.denoms {
+			if dup[d] {
+				hasDup = true
+			}
+			dup[d] = true
+			if pre.locked[op.owner].AmountOf(denomNames[d]).IsPositive() {
+				anyLocked = true
+			}
+		}
+		if !existed && isCva && !hasDup && anyLocked {
+			rep.Eval("C07.move_of_locked_denoms_succeeds", res.ok, c, st, fmt.Sprintf("%s failed although the sender has %s locked", op.term, pre.locked[op.owner]))
+		}
+	}
 	if !res.ok {
 		return
 	}
@@ -1154,6 +1176,19 @@ func (e *vestEnv) predicates(ctx sdk.Context, op *vestOp, pre *vestSnap, res opR
 		ok := acc != nil && acc.OriginalVesting.IsEqual(op.coins) && post.bal[op.to].IsEqual(op.coins) &&
 			pre.bal[op.owner].Sub(op.coins...).IsEqual(post.bal[op.owner])
 		rep.Eval("C08.create_va_exact", ok, c, st, op.term)
+		// ... and vests them linearly between the GIVEN start and end
+		rep.Eval("C08.create_va_schedule_as_given", acc != nil && acc.StartTime == op.start && acc.EndTime == op.end, c, st,
+			fmt.Sprintf("%s: account start %d end %d", op.term, func() int64 {
+				if acc == nil {
+					return -1
+				}
+				return acc.StartTime
+			}(), func() int64 {
+				if acc == nil {
+					return -1
+				}
+				return acc.EndTime
+			}()))
 	case "split", "move", "move_denoms":
 		_, existed := pre.accBytes[op.to]
 		rep.Eval("C07.recipient_was_absent", !existed, c, st, op.term)
@@ -1171,6 +1206,15 @@ func (e *vestEnv) predicates(ctx sdk.Context, op *vestOp, pre *vestSnap, res opR
 		if op.kind == "move" {
 			rep.Eval("C07.move_leaves_zero_locked", post.locked[op.owner].IsZero(), c, st, fmt.Sprintf("%s left %s", op.term, post.locked[op.owner]))
 		}
+		if op.kind == "move_denoms" {
+			left := sdk.NewCoins()
+			for _, d := range op.denoms {
+				if a := post.locked[op.owner].AmountOf(denomNames[d]); a.IsPositive() {
+					left = left.Add(sdk.NewCoin(denomNames[d], a))
+				}
+			}
+			rep.Eval("C07.move_by_denoms_leaves_zero_locked_for_selected", left.IsZero(), c, st, fmt.Sprintf("%s left %s locked on the sender", op.term, left))
+		}
 		a0, _ := app.AccountKeeper.UnmarshalAccount(pre.accBytes[op.owner])
 		v0 := a0.(*vestingtypes.ContinuousVestingAccount)
 		v1, _ := app.AccountKeeper.GetAccount(ctx, e.addrs[op.to]).(*vestingtypes.ContinuousVestingAccount)
@@ -1182,7 +1226,8 @@ func (e *vestEnv) predicates(ctx sdk.Context, op *vestOp, pre *vestSnap, res opR
 		// later-time agreement: sender' + recipient vs sender alone
 		if v1 != nil {
 			s1, _ := app.AccountKeeper.GetAccount(ctx, e.addrs[op.owner]).(*vestingtypes.ContinuousVestingAccount)
-			for k := 0; k < 5; k++ {
+			rep.Eval("C09.sender_stays_a_continuous_vesting_account", s1 != nil, c, st, fmt.Sprintf("%s: the sender's account is no longer a continuous vesting account", op.term))
+			for k := 0; k < 5 && s1 != nil; k++ {
 				tt := time.Unix(pre.now.Unix()+e.rng.I64n(v0.EndTime-pre.now.Unix()+2), 0)
 				for _, d := range e.denoms {
 					dn := denomNames[d]
